@@ -473,14 +473,7 @@ func (w *world) after(p pending, signers []neotest.Signer, role []int, r chainx.
 	site := w.kind + ".update"
 	post := w.scan()
 	postVer := w.version()
-	if !r.Halt {
-		if !sameKVs(p.pre, post) || p.preVer != postVer {
-			w.run.Violation(prop, site, "fault-changed-state", fmt.Sprintf("update FAULTed (%s) but version %s -> %s, storage items %d -> %d",
-				r.Fault, p.preVer, postVer, len(p.pre), len(post)))
-		}
-		return
-	}
-	// (a) witness
+	// (a) witness: is the account the property names among the signers?
 	req, ok := w.requiredAccount(role)
 	has := false
 	for _, s := range signers {
@@ -488,8 +481,21 @@ func (w *world) after(p pending, signers []neotest.Signer, role []int, r chainx.
 			has = true
 		}
 	}
+	if !r.Halt {
+		if !sameKVs(p.pre, post) || p.preVer != postVer {
+			w.run.Violation(prop, site, "fault-changed-state", fmt.Sprintf("update FAULTed (%s) but version %s -> %s, storage items %d -> %d",
+				r.Fault, p.preVer, postVer, len(p.pre), len(post)))
+		}
+		// directed gate cases: version inside the gate, storage as deployed, default data, valid executable - there
+		// the witness alone decides, so a refusal of the genuine majority account is the gate asking for another one
+		if vb, err := strconv.Atoi(p.preVer); err == nil && w.gate && w.nefOk && has && vb >= common.PrevVersion && vb < common.Version {
+			w.run.Violation(prop, site, "update-rejected-with-majority", fmt.Sprintf(
+				"update from version %d signed by the required majority account (%s; n=%d role=%v) FAULTed: %s", vb, w.sigLine, w.n, role, r.Fault))
+		}
+		return
+	}
 	if !has {
-		w.run.Violation(prop, site, "halt-without-witness", fmt.Sprintf("update HALTed; signers %d, none is the required majority account (n=%d role=%v)", len(signers), w.n, role))
+		w.run.Violation(prop, site, "update-accepted-without-majority", fmt.Sprintf("update HALTed; signers %s, none is the required majority account (n=%d role=%v)", w.sigLine, w.n, role))
 	}
 	// (b) gate and monotonicity; the bounds are the ones the repository under test declares
 	vb, err1 := strconv.Atoi(p.preVer)
